@@ -20,14 +20,17 @@ import (
 // ---------------------------------------------------------------- inputs
 
 type Step struct {
-	Op    string `json:"op"` // add | fast | raw | reopen
+	Op    string `json:"op"` // add | fast | raw | reopen | local (AddContent on the replica's own heads)
 	Batch []int  `json:"batch,omitempty"`
 	Heads []int  `json:"heads,omitempty"` // sender's heads (raw)
 	Path  []int  `json:"path,omitempty"`  // sender's snapshot path (raw)
+	ID    int    `json:"id,omitempty"`    // local: abstract id of the change to create
+	Snap  bool   `json:"snap,omitempty"`  // local: create a snapshot
 }
 
 type Case struct {
-	Kind  string   `json:"kind"` // tree | ot | otv (object tree with the real validator; dag entries may be "bad")
+	Kind  string   `json:"kind"` // tree | ot | otv (object tree with the real validator; dag entries may be "bad") | oi (ot/otv with local AddContent steps; Real selects the validator)
+	Real  bool     `json:"real,omitempty"`
 	Gen   string   `json:"gen"`
 	Dag   []Chg    `json:"dag"` // root first
 	Hists [][]Step `json:"hists"`
@@ -40,6 +43,7 @@ type Obs struct {
 	Heads  []int
 	Iter   []int
 	Stored []int
+	Rank   []int // stored changes sorted by their OrderId strings (object-tree kinds)
 }
 
 func dagMap(d []Chg) map[int]Chg {
@@ -116,20 +120,32 @@ func runTreeHist(dm map[int]Chg, hist []Step) (obs []Obs, monoBad bool, panicked
 
 // ---------------------------------------------------------------- level 2: object tree + storage
 
-func runOTHist(w *World, dag []Chg, hist []Step, real bool) (obs []Obs, monoBad bool, panicked string) {
+func runOTHist(w *World, dm map[int]Chg, root Chg, hist []Step, real bool, chk *oidCheck) (obs []Obs, monoBad bool, panicked string) {
 	defer func() {
 		if r := recover(); r != nil {
 			panicked = fmt.Sprint(r)
 		}
 	}()
-	dm := dagMap(dag)
-	p := w.newPeer(dag[0], real)
+	p := w.newPeer(root, real)
 	for _, st := range hist {
 		o := Obs{Mode: "Nothing"}
 		switch st.Op {
 		case "reopen":
 			if err := p.Reopen(); err != nil {
 				o.Err = true
+			}
+		case "local":
+			chk.beforeLocal(p)
+			c, err := p.AddContent(st.ID, st.Snap)
+			if err != nil {
+				o.Err = true
+				chk.localFailed(p, st, err)
+			} else {
+				dm[c.ID] = c
+				o.Mode = "Append"
+				if st.Snap {
+					o.Mode = "Rebuild"
+				}
 			}
 		default:
 			res, err := p.AddRaw(dm, st.Batch, st.Heads, st.Path, 0)
@@ -145,12 +161,15 @@ func runOTHist(w *World, dag []Chg, hist []Step, real bool) (obs []Obs, monoBad 
 		o.Heads = p.Heads()
 		var m1, m2 bool
 		o.Iter, m1 = p.Iter()
-		o.Stored, _, m2 = p.Stored()
+		var all []objecttree.StorageChange
+		o.Stored, all, m2 = p.Stored()
 		if !m1 || !m2 {
 			monoBad = true
 		}
+		o.Rank = chk.rank(p, dm, all)
 		obs = append(obs, o)
 	}
+	chk.lexidLaws(p)
 	return
 }
 
@@ -180,15 +199,24 @@ func stepTerm(st Step, o Obs) string {
 	return fmt.Sprintf("(SReopen %s %s %s %s)", vlib.Bool(!o.Err), nl(o.Heads), nl(o.Iter), nl(o.Stored))
 }
 
+// object-tree kinds: steps with the ranking of the stored changes by their real OrderId strings (COI cases)
+func istepTerm(st Step, o Obs) string {
+	switch st.Op {
+	case "raw":
+		return fmt.Sprintf("(XRaw %s %s %s %s %s %s %s %s)", nl(st.Batch), nl(st.Path), vlib.Bool(!o.Err), o.Mode, nl(o.Heads), nl(o.Iter), nl(o.Stored), nl(o.Rank))
+	case "local":
+		return fmt.Sprintf("(XLocal %d %s %s %s %s %s %s)", st.ID, vlib.Bool(st.Snap), vlib.Bool(!o.Err), nl(o.Heads), nl(o.Iter), nl(o.Stored), nl(o.Rank))
+	}
+	return fmt.Sprintf("(XReopen %s %s %s %s %s)", vlib.Bool(!o.Err), nl(o.Heads), nl(o.Iter), nl(o.Stored), nl(o.Rank))
+}
+
 func caseTerm(c Case, obs [][]Obs) string {
 	var sb strings.Builder
 	switch c.Kind {
 	case "tree":
 		sb.WriteString("(CTree [")
-	case "otv":
-		sb.WriteString("(COTV [")
 	default:
-		sb.WriteString("(COT [")
+		sb.WriteString("(COI [")
 	}
 	for i, ch := range c.Dag {
 		if i > 0 {
@@ -196,7 +224,7 @@ func caseTerm(c Case, obs [][]Obs) string {
 		}
 		sb.WriteString(chgTerm(ch))
 	}
-	if c.Kind == "otv" {
+	if c.Kind != "tree" {
 		var bad []int
 		for _, ch := range c.Dag {
 			if ch.Bad != 0 {
@@ -216,7 +244,11 @@ func caseTerm(c Case, obs [][]Obs) string {
 			if i > 0 {
 				sb.WriteString(";")
 			}
-			sb.WriteString(stepTerm(st, obs[h][i]))
+			if c.Kind == "tree" {
+				sb.WriteString(stepTerm(st, obs[h][i]))
+			} else {
+				sb.WriteString(istepTerm(st, obs[h][i]))
+			}
 		}
 		sb.WriteString("]")
 	}
@@ -238,13 +270,15 @@ func (r *runner) run(c Case) {
 	obs := make([][]Obs, len(c.Hists))
 	mono := false
 	pan := ""
+	chk := &oidCheck{}
 	for h, hist := range c.Hists {
 		var mb bool
 		var p string
 		if c.Kind == "tree" {
 			obs[h], mb, p = runTreeHist(dm, hist)
 		} else {
-			obs[h], mb, p = runOTHist(r.w, c.Dag, hist, c.Kind == "otv")
+			chk.hist = h
+			obs[h], mb, p = runOTHist(r.w, dm, c.Dag[0], hist, c.Kind == "otv" || c.Real, chk)
 		}
 		mono = mono || mb
 		if p != "" {
@@ -254,6 +288,10 @@ func (r *runner) run(c Case) {
 				obs[h] = append(obs[h], Obs{Mode: "Nothing", Err: true})
 			}
 		}
+	}
+	// local changes: the DAG records the parents / snapshot base the real tree chose in THIS run
+	for i := range c.Dag {
+		c.Dag[i] = dm[c.Dag[i].ID]
 	}
 	branching := false
 	kids := map[int]int{}
@@ -269,6 +307,9 @@ func (r *runner) run(c Case) {
 		}
 	}
 	nontrivial := len(c.Dag) >= 3 && branching && len(c.Hists) >= 2
+	if c.Kind == "oi" {
+		nontrivial = nontrivial && chk.localOnMulti > 0
+	}
 	if c.Kind == "otv" {
 		// a rejected-delivery case counts only if some delivery really was rejected after attaching something
 		nontrivial = nontrivial && r.rejStats(c, dm, obs)
@@ -280,6 +321,14 @@ func (r *runner) run(c Case) {
 	}
 	if mono {
 		r.out.Violation(idx, "orderid-not-increasing", "OrderId strings do not strictly increase along an iteration / the stored sequence", nil)
+	}
+	for _, v := range chk.viol {
+		r.out.Violation(idx, v.tag, v.what, v.data)
+	}
+	for k, n := range chk.stats {
+		for j := 0; j < n; j++ {
+			r.out.Stat(k)
+		}
 	}
 	r.out.Stat("kind_" + c.Kind)
 	r.out.Stat("gen_" + c.Gen)
@@ -343,7 +392,7 @@ func main() {
 		maxN = 4
 	}
 	exh := 0
-	for n := 1; n <= maxN && part != "rej"; n++ {
+	for n := 1; n <= maxN && part != "rej" && part != "oid"; n++ {
 		exh += exhaustiveTree(r, rng, n)
 	}
 	// 2. random DAGs on the Tree type
@@ -351,7 +400,7 @@ func main() {
 	if thorough {
 		nTree = 2000 * o.Budget
 	}
-	if part == "rej" {
+	if part == "rej" || part == "oid" {
 		nTree = 0
 	}
 	for k := 0; k < nTree; k++ {
@@ -369,7 +418,7 @@ func main() {
 	if thorough {
 		nOT = 900 * o.Budget
 	}
-	if part == "rej" {
+	if part == "rej" || part == "oid" {
 		nOT = 0
 	}
 	for k := 0; k < nOT; k++ {
@@ -390,7 +439,7 @@ func main() {
 	if thorough {
 		nRej = 600 * o.Budget
 	}
-	if part == "base" {
+	if part == "base" || part == "oid" {
 		nRej = 0
 	} else {
 		famN = rejFamily(r)
@@ -399,10 +448,28 @@ func main() {
 		g := rng.Fork(uint64(2000000 + k))
 		r.run(rejRandom(w, g))
 	}
+	// 5. order-id worlds: local AddContent merges on multi-head trees next to remote deliveries, replayed elsewhere
+	nOid := 70 * o.Budget
+	if thorough {
+		nOid = 700 * o.Budget
+	}
+	if part == "rej" || part == "base" {
+		nOid = 0
+	}
+	if part == "oid" || part == "" {
+		for v := 0; v < 3; v++ {
+			r.run(oidDemo(v))
+		}
+	}
+	for k := 0; k < nOid; k++ {
+		g := rng.Fork(uint64(3000000 + k))
+		r.run(genOid(w, g))
+	}
 	r.out.Finish("one case = one DAG with several arrival histories (permutation, partition into batches, duplicates, "+
 		"reopen points); otv cases: object trees with the real validator, DAG extended by changes that fail validation, "+
 		"histories with deliveries that attach and are rejected (rollback) next to a clean history over the same sets "+
-		"(non-trivial only if a delivery was rejected after attaching); generators: exhaustive DAGs with <= maxN non-root changes x all id assignments x arrival orders on the "+
+		"(non-trivial only if a delivery was rejected after attaching); oi cases: object trees with local AddContent steps (non-trivial only if a "+
+		"local change was created on a tree with >= 2 heads); every object-tree step carries the ranking of the stored changes by their real OrderId strings; generators: exhaustive DAGs with <= maxN non-root changes x all id assignments x arrival orders on the "+
 		"Tree type, random DAGs up to 200 changes on the Tree type, honest DAGs authored by 2-4 real peers (snapshots, concurrent "+
 		"snapshots, reduced trees) replayed on object trees over any-store storage; a case is non-trivial if the DAG has >= 3 "+
 		"changes, branches or merges, and is replayed in >= 2 histories; distinct by full case term",
